@@ -1,6 +1,7 @@
 (* Properties/C09.v — Hedge: bounded attempts, spaced by the delay, one winner, losers cancelled.
    [hedge_run] is the virtual-time mirror of hedgepolicy/hedgeexecutor.go (Model/Hedge.v). *)
 From FS Require Import Model.Hedge Proofs.HedgeProofs Corr.C09.
+From FS Require Import Model.Exec Proofs.ExecHedgeProofs Corr.C09x.
 
 (* For every maxHedges, delay function, cancel conditions, assignment of durations/outcomes/cooperativeness
    to the attempts and cancellation instant of the caller's context: at most maxHedges+1 attempts are
@@ -49,3 +50,35 @@ Theorem C09_waited_out_delay_before_fix :
   ho_end (hedge_run (mk true) atts (Some (1000000000, ECtxCanceled)) 0) = 1000000000.
 Proof. vm_compute. auto. Qed.
 Print Assumptions C09_waited_out_delay_before_fix.
+
+(* ---- placement inside other policies: the hedge layer of Model/Exec.v (hedge policy directly around the function, ANY
+   enclosing stack, script, pending timeouts / cancellations and attempts of earlier runs still in the background) ---- *)
+
+(* one hedged run starts at most maxHedges hedges (the Hedges counter, which every observer reads, grows by at most that) *)
+Theorem C09_in_stack_hedges_bounded : forall pos total cfg c w,
+  w_hedges (snd (hedge_layer pos total cfg c w)) <= w_hedges w + Z.of_nat (hg_max cfg).
+Proof. exact hedge_layer_hedges_bound. Qed.
+Print Assumptions C09_in_stack_hedges_bounded.
+
+(* at most maxHedges + 1 attempts are started by one run ... *)
+Theorem C09_in_stack_attempts_bounded : forall cfg pos total fuel c started w,
+  (length (snd (hedge_loop fuel cfg pos total c 0 started w)) <= S (hg_max cfg))%nat.
+Proof. intros. pose proof (hedge_loop_attempts_bound cfg pos total fuel c 0 started w ltac:(lia)). lia. Qed.
+Print Assumptions C09_in_stack_attempts_bounded.
+
+(* ... and attempt i of the run is started no earlier than i hedge delays after the run began *)
+Theorem C09_in_stack_spacing : forall cfg pos total, 0 <= hg_delay cfg ->
+  forall fuel c started w i t,
+  nth_error (snd (hedge_loop fuel cfg pos total c 0 started w)) i = Some t -> w_now w + Z.of_nat i * hg_delay cfg <= t.
+Proof. intros cfg pos total Hd fuel c started w. exact (hedge_loop_spacing cfg pos total Hd fuel c 0 started w). Qed.
+Print Assumptions C09_in_stack_spacing.
+
+(* premises are satisfiable: retry around a hedge, first attempt slow, the hedge wins *)
+Example C09_in_stack_example :
+  let hc := {| hg_max := 1; hg_delay := 1000; hg_cancel := build_hedge_cancel [] |} in
+  let script := [ {| fs_out := (1, None); fs_dur := 5000; fs_coop := None; fs_lag := 0 |};
+                  {| fs_out := (2, None); fs_dur := 700; fs_coop := None; fs_lag := 0 |} ] in
+  let w := fresh_world 0 None CKNone [] [] [] [] script in
+  let '(r, w1, ts) := hedge_loop 3 hc 0 1 0 0 [] w in
+  ts = [0; 1000] /\ w_hedges w1 = 1 /\ w_attempts w1 = 2.
+Proof. vm_compute. auto. Qed.
